@@ -403,6 +403,24 @@ fn fmtsweep(t: &[&str], out: &mut impl Write) {
     writeln!(out, "end {}", n).unwrap();
 }
 
+// uppertable: no input; prints "<cp>: <upper cps>" (decimal) for every scalar value whose upper-case folding, as the
+// library's char_to_uppercase computes it in this feature set (char::to_uppercase with `unicode`, to_ascii_uppercase
+// without), differs from the character itself
+fn uppertable(out: &mut impl Write) {
+    for cp in 0..0x11_0000u32 {
+        if let Some(c) = char::from_u32(cp) {
+            #[cfg(feature = "unicode")]
+            let u: Vec<char> = c.to_uppercase().collect();
+            #[cfg(not(feature = "unicode"))]
+            let u: Vec<char> = vec![c.to_ascii_uppercase()];
+            if u.len() != 1 || u[0] != c {
+                let l: Vec<String> = u.iter().map(|x| format!("{}", *x as u32)).collect();
+                writeln!(out, "{}: {}", cp, l.join(" ")).unwrap();
+            }
+        }
+    }
+}
+
 pub fn main(args: &[String]) {
     let stdin = std::io::stdin();
     let stdout = std::io::stdout();
@@ -422,6 +440,11 @@ pub fn main(args: &[String]) {
                 }
             }
         }
+        out.flush().unwrap();
+        return;
+    }
+    if mode == "uppertable_colon" {
+        uppertable(&mut out);
         out.flush().unwrap();
         return;
     }
